@@ -302,10 +302,24 @@ def _exec_case(c):
         import nucs.propagators.propagators as PR
         import nucs.solvers.consistency_algorithms as C
 
-        PR.register_propagator(PR.get_triggers_dummy, PR.get_complexity_dummy, PR.compute_domains_dummy)
-        H.register_var_heuristic(H.first_not_instantiated_var_heuristic)
-        H.register_dom_heuristic(H.min_value_dom_heuristic)
-        C.register_consistency_algorithm(C.bound_consistency_algorithm)
+        # the registry contract the model states (C15_registry_*): a registration returns the OLD length, the new entry is the
+        # registered function, earlier entries stay where they were (indices held by existing solvers stay valid)
+        bad = []
+        for what, reg, lst, fn in (("var heuristic", H.register_var_heuristic, H.VAR_HEURISTIC_FCTS, H.first_not_instantiated_var_heuristic),
+                                   ("dom heuristic", H.register_dom_heuristic, H.DOM_HEURISTIC_FCTS, H.min_value_dom_heuristic),
+                                   ("consistency algorithm", C.register_consistency_algorithm, C.CONSISTENCY_ALG_FCTS, C.bound_consistency_algorithm)):
+            before = list(lst)
+            i = reg(fn)
+            if i != len(before) or len(lst) != len(before) + 1 or lst[i] is not fn or any(a is not b for a, b in zip(before, lst)):
+                bad.append(f"register {what}: returned {i} with {len(before)} entries before and {len(lst)} after")
+        before = (list(PR.GET_TRIGGERS_FCTS), list(PR.GET_COMPLEXITY_FCTS), list(PR.COMPUTE_DOMAINS_FCTS))
+        i = PR.register_propagator(PR.get_triggers_dummy, PR.get_complexity_dummy, PR.compute_domains_dummy)
+        after = (PR.GET_TRIGGERS_FCTS, PR.GET_COMPLEXITY_FCTS, PR.COMPUTE_DOMAINS_FCTS)
+        fns = (PR.get_triggers_dummy, PR.get_complexity_dummy, PR.compute_domains_dummy)
+        if any(i != len(b) or len(a) != len(b) + 1 or a[i] is not f or any(x is not y for x, y in zip(b, a)) for b, a, f in zip(before, after, fns)):
+            bad.append(f"register_propagator: returned {i} with {len(before[2])} entries before")
+        if bad:
+            return ("err", "registry-contract " + "; ".join(bad), None)
         return ("ok", [], [0] * 13)
     if c["op"] == "custom_variant":
         # a user registers a custom propagator that REUSES a shipped compute function with its own trigger function; when
